@@ -1,5 +1,6 @@
 import Driver.Util
 import Sqfs.Model.Writer
+import Sqfs.Spec.Writer
 /-!
 Line protocol of the C14 model driver (`sqfsmodel c14`):
 
@@ -11,6 +12,8 @@ Line protocol of the C14 model driver (`sqfsmodel c14`):
   `prefixes`                     → `prefixes <v0> <v1> … <vn>` : verdict of `image (take k ops)` for every k,
                                     `r<e>` (rejected by superRead with error e), `i<e>` (rejected at the id-table
                                     stage), `a` (passes both)                                           (keeps the log)
+  `monitor`                      → `monitor RRR…CC` : the specification predicate `Spec.Writer.statusOf` at every
+                                    crash point (R rejected, C complete up to padding, X neither = property violated)
   `reset`                        → `ok`
 * script mode (in-process correspondence with `h_c14 <scratch> script`, same commands and answers):
   `init`, `opts`, `blk`, `mnew`/`mapp`/`mflush`/`mwrite`/`mreset`, `table`, `idtable`, `fragtable`, `export`, `xattr`,
@@ -173,6 +176,16 @@ def prefixVerdicts (ops : List Op) : List String :=
     | o :: r => shortVerdict f :: go (o.apply f) r
   go [] ops
 
+/-- `Spec.Writer.statusOf` at every crash point of a log: `R` rejected, `C` complete up to padding, `X` neither -/
+def monitorLog (ops : List Op) : List String :=
+  let full := image ops
+  let st (f : Bytes) : String := match Sqfs.Spec.Writer.statusOf f full with
+    | some true => "R" | some false => "C" | none => "X"
+  let rec go (f : Bytes) : List Op → List String
+    | [] => [st f]
+    | o :: r => st f :: go (o.apply f) r
+  go [] ops
+
 def step (st : St) (line : String) : St × String :=
   match words line with
   | ["verdict", h] => match fromHex h with
@@ -193,6 +206,7 @@ def step (st : St) (line : String) : St × String :=
   | ["shape"] =>
       let ops := st.ops.reverse
       (st, if shapeCheck ops then s!"shape ok kfinal={kFinalOf ops} nops={ops.length}" else s!"shape bad nops={ops.length}")
+  | ["monitor"] => (st, "monitor " ++ "".intercalate (monitorLog st.ops.reverse))
   | ["prefixes"] => (st, "prefixes " ++ " ".intercalate (prefixVerdicts st.ops.reverse))
   | ["reset"] => ({}, "ok")
   | ws => match scriptStep st ws with
